@@ -38,6 +38,7 @@ def run(ctx):
     res = V.run_case_files(ctx, files)
     found_input = False
     rootdiffs = 0
+    diverging = []
     for f, r in res.items():
         cases = json.load(open(f + ".json"))
         for ci, c in enumerate(cases):
@@ -55,12 +56,14 @@ def run(ctx):
                             {"kind": "implementation-trace-differs-from-LedgerSpec", "theorem": "C18_ledger_refines",
                              "first_difference_at_op": at, "op": case["Ops"][at] if at < len(case["Ops"]) else None,
                              "implementation_output": case["Outs"][at] if at < len(case["Outs"]) else None, "case": case})
-            elif not found_input:
-                at = dmodel[1]
-                V.violation(ctx, "correspondence:ledger-model",
-                            {"kind": "model-implementation-divergence", "correspondence": "Ledger.v (incl. tree-operation order of Commit) vs ledger.FinalityLedger",
-                             "first_difference_at_op": at, "case": case,
-                             "searched": "every implementation trace of this run equals the abstract store's trace (LedgerSpec): no failing input"}, nofail=True)
+            else:
+                diverging.append((dmodel[1], case))
+    if diverging and not found_input:
+        at, case = diverging[0]
+        V.violation(ctx, "correspondence:ledger-model",
+                    {"kind": "model-implementation-divergence", "correspondence": "Ledger.v (incl. tree-operation order of Commit) vs ledger.FinalityLedger",
+                     "first_difference_at_op": at, "case": case, "cases_diverging": len(diverging),
+                     "searched": "every implementation trace of this run equals the abstract store's trace (LedgerSpec): no failing input"}, nofail=True)
     common.proof_failure_verdict(ctx, found_input)
     agg = {}
     for s in stats:
